@@ -53,6 +53,10 @@ func runC01(env *lib.Env, rep *lib.Report) {
 	cfgs = append(cfgs, histCfg{Name: "real/t1x8/other-columns", Opt: real, Seed: "t1x8", Alpha: fullAlpha, Depth: d, AltSchemas: true, FinalReopen: true})
 	cfgs = append(cfgs, histCfg{Name: "real/case-twins", Opt: real, Seed: "case-twins",
 		Alpha: alphaOpt{Tables: []string{"T1", "t1"}, Inserts: []int{1, 9}, Updates: true, Deletes: true, FewDeletes: true}, Depth: d, FinalReopen: true})
+	// a page cache smaller than the catalog (eight tables: the look-up of a table turns the whole cache over),
+	// flushed after every statement: contents do not depend on which pages happen to be resident
+	cfgs = append(cfgs, histCfg{Name: "real/catalog-split/c0+c7/cache6", Opt: real, Seed: "catalog-split", CacheAfterSeed: 6,
+		Alpha: alphaOpt{Tables: []string{"c0", "c7"}, Inserts: []int{1, 9}, Updates: true, Deletes: true, FewDeletes: true}, Depth: d, FinalReopen: true})
 	// deeper, with a two-table alphabet, from the empty database
 	cfgs = append(cfgs, histCfg{Name: "real/empty/deep", Opt: real, Seed: "empty", Alpha: twoAlpha, Depth: d + 1, FinalReopen: true})
 	rep.Bounds["depth"] = d
